@@ -6,7 +6,7 @@ rc=0
 for id in $(python3 -c "
 import json
 for l in open('seeded/detections.jsonl'):
-    if l.strip(): print(json.loads(l)['id'])" | grep -E "${FILTER:-.}"); do
+    if l.strip(): print(json.loads(l)['id'])" | grep -E -- "${FILTER:-.}" || true); do
   # the check that is recorded as catching it (the property's own check where that is the case)
   prop=$(python3 -c "
 import json
